@@ -85,6 +85,20 @@ type Sched struct {
 	Diverged string
 	seqG     *G
 	seqGoid  uintptr
+	frozen   bool
+}
+
+// Freeze ends exploration for the rest of this execution: from now on every
+// choice takes its default and is not recorded (used for follow-up phases such
+// as a fault-free retry whose interleavings are not the subject).
+func Freeze() {
+	s, g := me()
+	if g == nil {
+		return
+	}
+	s.mu.Lock()
+	s.frozen = true
+	s.mu.Unlock()
 }
 
 var cur atomic.Pointer[Sched]
@@ -198,6 +212,9 @@ func (s *Sched) spawn(f func()) {
 // choose records a choice point and returns the chosen index. Caller holds s.mu
 // or is otherwise serialised.
 func (s *Sched) choose(n int, kind Kind, label string, runEn bool, runPos int) int {
+	if s.frozen {
+		return 0
+	}
 	i := len(s.Trace)
 	c := 0
 	if i < len(s.cfg.Prefix) {
